@@ -58,7 +58,7 @@ var anchorPreds = map[string]anchorPred{
 		}
 		loops := false
 		for _, l := range entryLoops(f) {
-			if call, _ := eng.TupleCall(l.Src()); call != nil {
+			if call, _ := eng.TupleCall(eng.OriginX(l.Src())); call != nil {
 				if cal := eng.Callee(&call.Call); cal != nil && returnsSnapshot(p, cal) {
 					loops = true
 				}
